@@ -22,6 +22,8 @@ _SRC_CACHE = {}
 
 def function_ast(fn):
     """The ast.FunctionDef of the real function (parsed from its file)."""
+    if not isinstance(fn, types.FunctionType):
+        raise OutOfSubset('%r is not a plain function (wrapped / decorated / replaced)' % (fn,))
     code = fn.__code__
     key = (code.co_filename, code.co_firstlineno, fn.__name__)
     if key in _SRC_CACHE:
@@ -149,6 +151,10 @@ class Interp:
             return self.call(f.fn, [f.self] + list(args), kwargs)
         if isinstance(f, Closure):
             return self.run_lambda(f, args)
+        if self.registry is not None and not isinstance(f, types.FunctionType) and callable(f) \
+                and getattr(f, '__wrapped__', None) is not None and self.registry.has(f):
+            # a wrapped pamqp function (e.g. a cache decorator): callers still see the contract
+            return self.call_pamqp(f, list(args), kwargs)
         if isinstance(f, types.FunctionType) and f.__module__.startswith('pamqp'):
             return self.call_pamqp(f, list(args), kwargs)
         if isinstance(f, types.MethodType) and isinstance(f.__func__, types.FunctionType) \
